@@ -596,6 +596,8 @@ fn record(case: &Case, out: &SimOut<Obs>, tally: &mut Tally, scen_hash: u64) {
     tally.bump("sched_steps", c.steps);
     tally.bump("sched_branching_points", c.branching);
     tally.bump("random_draws", c.n_rng);
+    tally.bump("clock_reads", c.n_clock_reads);
+    tally.bump("fault_clock_leap_fired", c.n_clock_jumps_fired);
     tally.bump("random_draws_adversarial", c.n_rng_adversarial);
     tally.bump("par_calls", c.n_par_calls);
     tally.bump(&format!("pool_size_{:02}", case.cfg.pool), 1);
